@@ -59,6 +59,7 @@ type childResult struct {
 	Visits    int64  `json:"visits"`
 	Sels      int    `json:"sels"` // fields + fragment spreads in the document
 	DepthErr  bool   `json:"depth_err"`
+	CycleErr  bool   `json:"cycle_err,omitempty"` // some error says "fragment cycle"
 	FirstLine int    `json:"first_line,omitempty"`
 	FirstCol  int    `json:"first_col,omitempty"`
 	// validator.VerifCounters consumed by this run (only with build tag c12walks)
@@ -127,6 +128,9 @@ func runWork(c Case, src string, s *graphql.Schema) childResult {
 	for _, e := range errs {
 		if strings.Contains(e.Message, depthMsg) {
 			r.DepthErr = true
+		}
+		if strings.Contains(e.Message, "fragment cycle") {
+			r.CycleErr = true
 		}
 	}
 	if d, perrs := parser.ParseDocument([]byte(src)); d != nil && len(perrs) == 0 {
@@ -573,10 +577,13 @@ func (h *harness) mixedFamilies() {
 
 // selBound: the polynomial bound the cost walk's visits must respect: quadratic in the number of
 // selections of the document (every fragment expanded at most once per spread site is ≤ S·S).
+// modelWidth: widest document of the wide / cyclic families that is also run through the walk models.
+const modelWidth = 600
+
 func selBound(s int) int64 { return int64(s)*int64(s) + int64(s) + 16 }
 
 type workVerdict struct {
-	mode string // "" ok | timeout | crash | visits-bound | depth-error
+	mode string // "" ok | timeout | crash | visits-bound | depth-error | rejected-valid | cycle-not-reported
 	what string
 }
 
@@ -590,6 +597,14 @@ func (h *harness) workCase(c Case) (childOutcome, workVerdict) {
 	}
 	if o.Res.DepthErr {
 		return o, workVerdict{"depth-error", fmt.Sprintf("%s n=%d: refused with %q", c.Family, c.N, depthMsg)}
+	}
+	if f := familyByName(c.Family); f != nil && c.Kind == "work" {
+		if f.valid && !o.Res.Accepted {
+			return o, workVerdict{"rejected-valid", fmt.Sprintf("%s n=%d: a valid document (the same family is accepted at smaller sizes; only the number of siblings grows, the nesting depth is constant) is rejected with %d error(s), first: %q", c.Family, c.N, o.Res.Errs, o.Res.First)}
+		}
+		if f.cyclic && !o.Res.CycleErr {
+			return o, workVerdict{"cycle-not-reported", fmt.Sprintf("%s n=%d: the document has a fragment cycle but no error says so (%d errors, first: %q)", c.Family, c.N, o.Res.Errs, o.Res.First)}
+		}
 	}
 	if c.Cost && o.Res.Sels > 0 && o.Res.Visits > selBound(o.Res.Sels) {
 		return o, workVerdict{"visits-bound", fmt.Sprintf("%s n=%d: the cost walk visited %d fields/spreads of a document that has %d (bound %d): the work is not polynomial in the document", c.Family, c.N, o.Res.Visits, o.Res.Sels, selBound(o.Res.Sels))}
@@ -654,17 +669,40 @@ func (h *harness) workFamily(f family) {
 		if key2 != "" {
 			run.Count("known-finding-case:" + key2)
 		}
+		// a verdict that flips between two sizes of a family of valid documents: find the least refused width
+		vc := c
+		if f.valid && (v.mode == "rejected-valid" || v.mode == "depth-error") && prev != nil && prev.Status == "ok" && prev.Res.Accepted {
+			lo, hi := prevN, n // lo accepted, hi refused
+			for hi-lo > 1 {
+				mid := (lo + hi) / 2
+				if om, vm := h.workCase(Case{Kind: "work", Family: f.name, N: mid, Cost: f.cost}); om.Status == "ok" && vm.mode == "" {
+					lo = mid
+				} else {
+					hi = mid
+				}
+			}
+			v.what += fmt.Sprintf(" — accepted up to n=%d, refused from n=%d on: the limit counts breadth, not depth", lo, hi)
+			vc.N = hi // the recorded case is the least refused width
+		}
+		switch {
+		case f.valid:
+			run.Oblige("oracle: valid documents of growing breadth and constant nesting depth (sibling inline fragments / spreads / sub-selections, widths straddling 2^k and 10^k, every operation type) are accepted by ParseAndValidate at every width, within the budget", "oracle", 1, v.mode == "", v.what)
+		case f.cyclic:
+			run.Oblige("oracle: a fragment cycle (at the root, behind inline fragments, behind a chain, below a field, unreached; under query, mutation, subscription and shorthand operations) is reported as a fragment cycle by an ordinary error — no crash, no hang", "oracle", 1, v.mode == "", v.what)
+		}
 		run.Oblige("oracle: ParseAndValidate(+cost) finishes within the budget, without crash or depth error, cost-walk visits ≤ S²+S+16 (linear-size families; cases classified as finding F-12c are reported as such and counted under known-finding-case)", "oracle", 1, v.mode == "" || key2 != "", v.what)
 		// cost-walk step correspondence (hook counter = Lean step model) where the walk is measurable
 		if v.mode == "" || v.mode == "visits-bound" {
 			h.walkTie(c, o)
 		}
-		if o.Status == "ok" {
+		// the walk models keep their tables as lists (quadratic to run): the wide families are compared
+		// with them up to a moderate width
+		if o.Status == "ok" && (!(f.valid || f.cyclic) || n <= modelWidth) {
 			h.walksCompare(c, o.Res)
 		}
 		if v.mode != "" {
-			run.Violate("property", v.mode+": "+v.what, key2, false, c)
-			if v.mode == "timeout" || v.mode == "crash" || v.mode == "visits-bound" {
+			run.Violate("property", v.mode+": "+v.what, key2, false, vc)
+			if v.mode == "timeout" || v.mode == "crash" || v.mode == "visits-bound" || v.mode == "rejected-valid" || (f.valid && v.mode == "depth-error") {
 				// larger sizes can only be worse; do not burn the budget again
 				run.Note("%s: sizes above n=%d skipped after %s", f.name, n, v.mode)
 				break
@@ -745,10 +783,18 @@ func (g *docGen) selSet(depth int, fromFrag int) string {
 	return b.String()
 }
 
-// document: the root type Query has the same fields as Obj, but fragments are on Obj, so the root
-// selects through `obj`.
+// document: the root types have the same fields as Obj, but fragments F… are on Obj, so the root
+// selects through `obj`. The operation is a shorthand query, a query, a mutation or a subscription; one
+// time in three the root selection set is reached through a short chain of fragments on the root type
+// (R0 → R1 → …), one time in four of those closed into a ring: the rules that follow spreads from the
+// root selection set (subscription rule, merge check, variable walk, cycle search) see every shape under
+// every operation type. A subscription keeps one root response key where the document is meant to be valid.
 func (g *docGen) document() string {
 	var b strings.Builder
+	op := opVariants[3]
+	if g.r.Chance(1, 2) {
+		op = opVariants[g.r.Intn(3)]
+	}
 	root := g.selSet(0, -1)
 	frags := make([]string, g.nfrag)
 	for i := range frags {
@@ -764,7 +810,28 @@ func (g *docGen) document() string {
 			}
 		}
 	}
-	fmt.Fprintf(&b, "{ root: obj %s %s}\n", root, wrapExtra(extra))
+	body := fmt.Sprintf("root: obj %s %s", root, wrapExtra(extra))
+	if op.tag == "subscription" && extra != "" {
+		// one root field: the extra spreads go below it
+		body = fmt.Sprintf("root: obj %s", root[:len(root)-1]+wrapExtra(extra)+"}")
+	}
+	if g.r.Chance(1, 3) {
+		k := g.r.Range(1, 3)
+		ringed := g.cyclic || g.r.Chance(1, 4)
+		fmt.Fprintf(&b, "%s{ ...R0 }\n", op.header)
+		for i := 0; i < k; i++ {
+			switch {
+			case i+1 < k:
+				fmt.Fprintf(&b, "fragment R%d on %s { %s ...R%d }\n", i, op.typ, pickBody(i, body), i+1)
+			case ringed && g.r.Chance(1, 2):
+				fmt.Fprintf(&b, "fragment R%d on %s { %s ... { ...R%d } }\n", i, op.typ, pickBody(i, body), g.r.Intn(k))
+			default:
+				fmt.Fprintf(&b, "fragment R%d on %s { %s }\n", i, op.typ, pickBody(i, body))
+			}
+		}
+	} else {
+		fmt.Fprintf(&b, "%s{ %s}\n", op.header, body)
+	}
 	for i := range frags {
 		fmt.Fprintf(&b, "fragment F%d on Obj %s\n", i, frags[i])
 	}
@@ -772,6 +839,15 @@ func (g *docGen) document() string {
 		b.WriteString("fragment F0 on Obj { dup: x }\n") // a duplicate name: the last definition wins in fragmentsByName
 	}
 	return b.String()
+}
+
+// pickBody: the first fragment of a root chain carries the document's body, the others select the same
+// root response key again (so that a subscription keeps a single root field).
+func pickBody(i int, body string) string {
+	if i == 0 {
+		return body
+	}
+	return "root: obj { again: x }"
 }
 
 func wrapExtra(spreads string) string {
@@ -1030,6 +1106,22 @@ func (h *harness) walkCompare(c Case, r, full childResult, parsed bool, panicked
 	if panicked != "" {
 		run.Violate("crash", "the cost rule / ParseAndValidate panicked: "+panicked, "", false, c)
 		return
+	}
+	switch {
+	case strings.HasPrefix(c.Src, "query"):
+		run.Count("walk:op:query")
+	case strings.HasPrefix(c.Src, "mutation"):
+		run.Count("walk:op:mutation")
+	case strings.HasPrefix(c.Src, "subscription"):
+		run.Count("walk:op:subscription")
+	default:
+		run.Count("walk:op:shorthand")
+	}
+	if strings.Contains(c.Src, "{ ...R0 }") {
+		run.Count("walk:root-through-fragments")
+		if strings.Contains(c.Src, "... { ...R") {
+			run.Count("walk:root-fragment-ring")
+		}
 	}
 	if full.Accepted {
 		run.Count("walk:valid")
